@@ -206,6 +206,47 @@ def run(ctx):
                         continue
                     recv_case(fr, list(chunks), ("early", bl, pfx, after, len(chunks)), after=after, prefix=pfx)
 
+    # ---- history: a receive that fails mid-frame must not poison the next receive on the same Socket ----------------
+    for rep in range(60 if quick else 600):
+        work += 1
+        if not ctx.mine(work):
+            continue
+        fr1, fr2 = frame(rng.choice([0, 4, 30, 232, 300, 1000]), rng), frame(rng.choice([0, 1, 16, 200, 256, 700]), rng)
+        peer = Peer()
+        s = new_sock(peer)
+        cut = rng.choice([1, 3, 4, 10, 23, 24, 25, max(1, len(fr1) - 1)])
+        cut = min(cut, len(fr1) - 1)
+        after = rng.choice(["timeout", "reset", "oserror"])
+        peer.sock.deliver(fr1[:cut])
+        net.call_ops = 0
+        net.schedule = LimitedSchedule(recv_chunks=[rng.randint(1, 30) for _ in range(8)], limit=len(fr1) + len(fr2) + 200)
+        ad = AfterData(peer.sock, after, 64)
+        peer.sock.recv = ad.recv
+        res.ev()
+        try:
+            s.receive()
+            first = "returned"
+        except BudgetExceeded:
+            continue
+        except Exception as e:  # noqa
+            first = type(e).__name__
+        peer.sock.recv = ad.orig_recv
+        peer.sock.deliver(fr2)
+        net.schedule = LimitedSchedule(recv_chunks=[rng.randint(1, 300) for _ in range(6)], limit=len(fr2) + 200)
+        try:
+            got = s.receive()
+            exc = None
+        except BudgetExceeded as b_:
+            res.violation("receive-nonterminating:after-failed-receive", f"second receive on the same Socket did not terminate: {b_}", None)
+            continue
+        except Exception as e:  # noqa
+            got, exc = None, e
+        res.seen("two-step", len(fr1), cut, after, len(fr2))
+        if exc is not None or got != fr2:
+            res.violation("receive-after-failed-receive", f"after a receive that failed ({first}) {cut} bytes into a {len(fr1)}B frame, the next receive() on the same Socket "
+                          f"{'raised ' + repr(exc)[:80] if exc else 'returned %dB' % len(got)} instead of the following complete {len(fr2)}B frame",
+                          {"first_frame": len(fr1), "cut": cut, "after": after, "second_frame": len(fr2)})
+
     # ---- send ---------------------------------------------------------------------------------------------
     def send_case(msg, chunks, key, fault_after=None, fault_kind=None):
         peer = Peer()
